@@ -1,6 +1,6 @@
 (* RetentionCheck.v — executable comparison of the retention model with observations of
    the real retention pass (used by the generated case files of C14). *)
-From SigM Require Import Base Retention RetentionMem RetentionConc.
+From SigM Require Import Base Retention RetentionMem RetentionConc RetentionTime.
 Open Scope N_scope.
 
 (* the iteration order the real run showed (directories in the order they were removed) *)
@@ -227,3 +227,19 @@ Definition conc_ok (needhit : bool) (gate hz : N) (org : Z) (c : list seg) (pubs
 Definition check_conc (sm mm : list seg) (gl gm hz : N) (org : Z) (pl pm : list (list seg)) (osm omm : list path) : list nat :=
   (if conc_ok false gl hz org sm pl osm then [] else [0%nat])
   ++ (if conc_ok true gm hz org mm pm omm then [] else [1%nat]).
+
+(* ---------- the clock side (RetentionTime.v) ---------- *)
+(* one case: a server zone (transitions found in the real time.Location), an instant, a retention in hours, what
+   the real GetRetentionTimeMs returned for  time.UnixMilli(now).In(loc) , a number of days and the instant the
+   real  time.UnixMilli(now).In(loc).AddDate(0, 0, -days)  denotes.
+   2i: the model of the code ([horizon_of], and [horizon] of the pass model) differs from the observed horizon;
+   2i+1: the model of the standard library's calendar arithmetic ([t_adddate_days], used by the refuted variant
+   only) differs from the real AddDate *)
+Fixpoint check_zone_cases (cases : list (zone * Z * N * N * Z * Z)) (idx : nat) : list nat :=
+  match cases with
+  | [] => []
+  | (z, now, h, r, days, ad) :: t =>
+    (if (horizon_of h (mktime now z) =? r) && (horizon (Z.to_N now) h =? r) then [] else [(2 * idx)%nat])
+    ++ (if (t_inst (t_adddate_days (mktime now z) (- days)) =? ad)%Z then [] else [(2 * idx + 1)%nat])
+    ++ check_zone_cases t (S idx)
+  end.
